@@ -555,6 +555,20 @@ impl W {
                 };
                 self.if_(&i.cond, then, els)
             }
+            Expr::Match(m) => {
+                // `match scrutinee { pat => { … }, pat => expr }` in tail position (no guards)
+                let scrut = self.v(&m.expr)?;
+                let mut arms = String::new();
+                for a in &m.arms {
+                    if a.guard.is_some() {
+                        return Err("unsupported: match guard".into());
+                    }
+                    let pat = self.pat(&a.pat)?;
+                    let body = self.tail(&a.body)?;
+                    arms.push_str(&format!("\n | {pat} => {body}"));
+                }
+                Ok(format!("(do match {scrut} with{arms})"))
+            }
             other => Ok(format!("(do pure {})", self.v(other)?)),
         }
     }
@@ -823,8 +837,15 @@ pub fn c10builtins(repo: &Path) -> Result<String, String> {
         // StringChars::slice: the iterator expression is named, the rest is transliterated
         let mut fb = find::func(&string, "slice", Some("StringChars"))?;
         let it = "self.0.0.char_indices().map(|(byte, _)| byte).chain(std::iter::once(self.0.0.len()))";
-        replace(&mut fb.block, &[(it, "str_boundary_iter(s)"), ("\"\".into()", "str_empty"), ("self.0.0", "s")],
-            &[(it, 1), ("self.0.0", 1)], "StringChars_slice")?;
+        // the same iterator over a local `let s = &self.0.0;`
+        let it2 = "s.char_indices().map(|(byte, _)| byte).chain(std::iter::once(s.len()))";
+        let mut fb2 = fb.clone();
+        if replace(&mut fb.block, &[(it, "str_boundary_iter(s)"), ("\"\".into()", "str_empty"), ("self.0.0", "s")],
+            &[(it, 1), ("self.0.0", 1)], "StringChars_slice").is_err() {
+            replace(&mut fb2.block, &[(it2, "str_boundary_iter(s)"), ("\"\".into()", "str_empty"), ("self.0.0", "s")],
+                &[(it2, 1), ("self.0.0", 1)], "StringChars_slice")?;
+            fb = fb2;
+        }
         w.cx.borrow_mut().paths.insert("str_boundary_iter".into(), "Str.boundary_iter".into());
         w.cx.borrow_mut().paths.insert("str_empty".into(), "Str.empty".into());
         out.push_str(&emit(&w, "StringChars_slice", "(s : Str) (i j : USz)", "Option Str", &fb.block)?);
@@ -842,7 +863,7 @@ pub fn c10builtins(repo: &Path) -> Result<String, String> {
         let it = "s.match_indices('\\n').map(|(byte, _)| byte + 1)";
         replace(&mut fb.block, &[(it, "str_after_newlines(s)"), ("s.ends_with('\\n')", "str_ends_with_nl(s)"),
             ("Some(s.len())", "Some(str_byte_len(s))"), ("RotoString::new(\"\")", "str_empty"), ("self.0.0", "s")],
-            &[(it, 1), ("s.ends_with('\\n')", 1), ("Some(s.len())", 1), ("self.0.0", 2)], "StringLines_slice")?;
+            &[(it, 1), ("s.ends_with('\\n')", 1), ("Some(s.len())", 1), ("self.0.0", 1)], "StringLines_slice")?;
         let norm = |x: &dyn ToTokens| x.to_token_stream().to_string().replace(' ', "");
         let mut stmts: Vec<Stmt> = vec![];
         let src = fb.block.stmts.clone();
@@ -865,8 +886,18 @@ pub fn c10builtins(repo: &Path) -> Result<String, String> {
                 let (var, iter_name) = body.first().and_then(|s| s.strip_prefix("let")).and_then(|s| s.strip_suffix(".next()?;"))
                     .and_then(|s| s.split_once('=')).map(|(v, it)| (v.to_string(), it.to_string())).unwrap_or_default();
                 let is_ident = |x: &str| !x.is_empty() && x.chars().all(|c| c.is_alphanumeric() || c == '_');
-                let ok = !cur.is_empty() && norm(&fl.pat) == "_" && body.len() == 2 && is_ident(&var) && is_ident(&iter_name)
+                let mut ok = !cur.is_empty() && norm(&fl.pat) == "_" && body.len() == 2 && is_ident(&var) && is_ident(&iter_name)
                     && body[1] == format!("{cur}={var};");
+                // … or without the temporary: `CUR = IT.next()?;`
+                let mut iter_name = iter_name;
+                if !ok && !cur.is_empty() && norm(&fl.pat) == "_" && body.len() == 1 {
+                    if let Some(it) = body[0].strip_prefix(&format!("{cur}=")).and_then(|s| s.strip_suffix(".next()?;")) {
+                        if is_ident(it) {
+                            iter_name = it.to_string();
+                            ok = true;
+                        }
+                    }
+                }
                 if !ok {
                     return Err(format!("StringLines::slice: loop not of the skip/take shape: let mut {cur} = {init}; for {} in {a}..{b} {{ {} }}", norm(&fl.pat), body.join(" ")));
                 }
